@@ -210,7 +210,7 @@ class Externals:
         m, c, node = found
         qual = '%s.%s.%s' % (m, c, name)
         contract = eng.registry.lookup(qual, None, eng.schema) if eng.registry else None
-        if contract is not None:
+        if contract is not None and not contract.thin:
             from . import contract as cmod
             yield from cmod.apply_at_call(eng, ctx, contract, None, node, args, kwargs, qual, self_val=recref)
             return
@@ -838,6 +838,22 @@ def _any(eng, ctx, args, kwargs):
 @builtin('all')
 def _all(eng, ctx, args, kwargs):
     yield ctx, _any_all(eng, ctx, args, False)
+
+
+def _loads(eng, ctx, args, kwargs):
+    """pickle.loads / json.loads / msgpack.loads: any value, or any exception"""
+    eng.ext.note('pickle.loads / json.loads / msgpack.loads return an arbitrary value or raise an arbitrary Exception')
+    c2 = ctx.fork()
+    r = smt.fresh('decoded', V)
+    ctx.assume(smt.kind(r) != smt.K_OTHER)
+    yield ctx, S(r)
+    yield c2, Raised(Exc('AppException', []))
+
+
+BUILTINS['pickle.loads'] = Fn('builtin', name='pickle.loads', impl=_loads)
+BUILTINS['engineio.json.loads'] = Fn('builtin', name='json.loads', impl=_loads)
+BUILTINS['json.loads'] = Fn('builtin', name='json.loads', impl=_loads)
+BUILTINS['msgpack.loads'] = Fn('builtin', name='msgpack.loads', impl=_loads)
 
 
 @builtin('min')
